@@ -12,7 +12,15 @@ import json
 import os
 import re
 
-import vlib
+def _short(x, n=160):
+    if isinstance(x, str) and len(x) > n:
+        return x[:n] + "...(%d chars)" % len(x)
+    if isinstance(x, dict):
+        return {k: _short(v, n) for k, v in x.items()}
+    if isinstance(x, (list, tuple)):
+        return [_short(v, n) for v in list(x)[:40]]
+    return x
+
 
 REPO = os.environ.get("VERIF_REPO") or "/repo"
 
@@ -55,7 +63,7 @@ def race_clause(ctx, prefix, what, replay):
         seen.setdefault(sig, txt)
     for sig, txt in seen.items():
         if all(part.startswith("harness:") for part in sig.split(" <-> ")):
-            raise vlib.Infra("data race inside the harness itself (%s):\n%s" % (sig, txt[:1500]))
+            ctx.infra("data race inside the harness itself (%s):\n%s" % (sig, txt[:1500]))
     if seen:
         p = os.path.join(ctx.scratch, "race-events.ndjson")
         with open(p, "w") as f:
@@ -64,7 +72,7 @@ def race_clause(ctx, prefix, what, replay):
                 f.write(json.dumps(dict(ev="race", where=sig)) + "\n")
         mism, _ = ctx.validate_events("Trace_Concurrency", p, reset="reset", shards=1, stage="T:race reports of " + what)
         if len(mism) < 1:
-            raise vlib.Infra("race events not rejected by Trace_Concurrency")
+            ctx.infra("race events not rejected by Trace_Concurrency")
         for sig, txt in seen.items():
             ctx.violation("data race " + sig, "Go race detector: conflicting unsynchronised accesses (%s)" % sig,
                           dict(report=txt, run=what, **replay))
@@ -92,7 +100,7 @@ def prim_judge(ctx, trace, tag):
     for m in mism:
         e, bad = m["event"], m["bad"]
         if bad[0].startswith("coverage:"):
-            raise vlib.Infra("C18 trace not judgeable at event %d: %s %s" % (m["index"], bad, vlib._shorten(e)))
+            ctx.infra("C18 trace not judgeable at event %d: %s %s" % (m["index"], bad, _short(e)))
         if lines is None:
             lines = open(trace).read().splitlines()
         k = m["index"]
@@ -100,8 +108,8 @@ def prim_judge(ctx, trace, tag):
             k -= 1
         sc = json.loads(lines[k])
         sig = "%s/%s %s" % (sc.get("target"), e.get("op"), bad[0])
-        ctx.violation(sig, "%s (G=%s; alone: %s)" % (bad[0], sc.get("G"), vlib._shorten(bad[1:], 200)),
-                      dict(event=vlib._shorten(e, 600), spec_says=vlib._shorten(bad, 600), only=sc.get("target"), G=sc.get("G")))
+        ctx.violation(sig, "%s (G=%s; alone: %s)" % (bad[0], sc.get("G"), _short(bad[1:], 200)),
+                      dict(event=_short(e, 600), spec_says=_short(bad, 600), only=sc.get("target"), G=sc.get("G")))
     return mism, n
 
 
@@ -127,12 +135,12 @@ def registry_accept(ctx, trace, stage):
         states += r.distinct
         gen += r.generated
         if r.invariant:
-            raise vlib.Infra("registry log malformed: %s" % (r.last_state or {}).get("bad"))
+            ctx.infra("registry log malformed: %s" % (r.last_state or {}).get("bad"))
         if r.ok and not r.postcondition_failed:
             break
         m = re.search(r'<<"HWM", (\d+)>>', r.out)
         if not r.postcondition_failed or not m:
-            raise vlib.Infra("Trace_Registry: %s" % (r.error or r.out[-1500:]))
+            ctx.infra("Trace_Registry: %s" % (r.error or r.out[-1500:]))
         hw = int(m.group(1))            # 1-based line that no path could consume
         rejected.append((hw - 1, json.loads(lines[hw - 1])))
         nxt = [i for i in resets if i > hw - 1]
@@ -175,7 +183,7 @@ def registry_control(ctx, trace):
     r = ctx.tlc("Trace_Registry", env=dict(VERIF_TRACE=p, VERIF_START=1), workers=1, deque=True)
     m = re.search(r'<<"HWM", (\d+)>>', r.out)
     if not r.postcondition_failed or not m or int(m.group(1)) != k - a + 1:
-        raise vlib.Infra("negative control of Trace_Registry NOT rejected at the corrupted line %d: %s hwm=%s"
+        ctx.infra("negative control of Trace_Registry NOT rejected at the corrupted line %d: %s hwm=%s"
                          % (k - a + 1, r.summary(), m.group(1) if m else None))
     ctx.stage("NC:Trace_Registry", rejected_at_line=k, field_corrupted="res of a lookup")
     ctx.log("negative control (registry): corrupted lookup result rejected at its line")
@@ -202,7 +210,7 @@ def registry_judge(ctx, trace, tag):
         st = [x for x in sc[:idx - a] if x.get("ev") == "start" and x.get("g") == e.get("g")]   # the call that ended here
         ctx.violation("core/registry history not linearizable (%s)" % (st[-1]["op"] if st else "?"),
                       "no linearization of the recorded concurrent history explains result %r (log line %d)" % (e.get("res"), idx + 1),
-                      dict(event=e, line=idx + 1, scenario=vlib._shorten(sc, 300), registry=True))
+                      dict(event=e, line=idx + 1, scenario=_short(sc, 300), registry=True))
     return rejected
 
 
@@ -225,7 +233,7 @@ def run(ctx):
     ctx.model_check("MC_Concurrency", workers=1, heap="2g", stage="M:3 goroutines x deterministic + randomized calls, all interleavings")
     r = ctx.tlc("MC_ConcurrencyShared", workers=1, heap="2g")
     if r.invariant != "ConcurrentEqualsAlone":
-        raise vlib.Infra("the model with shared scratch state does not violate ConcurrentEqualsAlone: the property is vacuous (%s)" % r.summary())
+        ctx.infra("the model with shared scratch state does not violate ConcurrentEqualsAlone: the property is vacuous (%s)" % r.summary())
     ctx.stage("M:shared-scratch counter-model", violates="ConcurrentEqualsAlone", trace_len=r.trace_len)
     ctx.model_check("MC_Registry", "MC_Registry_km", workers=1, heap="4g", stage="M:registry 2 goroutines x 2 calls, key-manager map, history properties")
     ctx.model_check("MC_Registry", "MC_Registry_kms", workers=1, heap="4g", stage="M:registry 2 goroutines x 2 calls, KMS client list")
@@ -286,7 +294,7 @@ def run(ctx):
     ctx.run([drv, "-selfrace"], env=ctx.env(**env), ok_codes=(0, 66))
     ctl = race_reports(pre)
     if not ctl or not all(sig.startswith("harness:main.selfRace") for sig, _ in ctl):
-        raise vlib.Infra("race-detector control: the deliberate harness race was not reported (%s): detector not attached" % [c[0] for c in ctl])
+        ctx.infra("race-detector control: the deliberate harness race was not reported (%s): detector not attached" % [c[0] for c in ctl])
     ctx.stage("NC:race detector", deliberate_harness_race="reported", reports=len(ctl))
     ctx.log("negative control (race detector): deliberate harness race reported")
     if not ctx.violations:
@@ -300,9 +308,11 @@ MANIFEST = dict(
           "only Alone(op, in) (randomized operations: a value the alone inverse maps back to the input). Registry.tla: the global "
           "registries as maps with atomic load-or-store / lookup / KMS list operations and start / linearization / end steps. TLC "
           "model-checks both exhaustively on small constants (incl. a shared-scratch counter-model that must violate the property) "
-          "and then judges runs of the real code: 74+ shared primitives / handles x G in {2, 8, 32} goroutines (every concurrent "
-          "return compared with the same call executed alone; randomized results inverted alone), and recorded registry histories "
-          "for which TLC searches linearization points (high-water mark acceptance)."),
+          "and then judges runs of the real code: 74 (quick) / 77 (thorough) shared primitives / handles x G in {2, 8, 32} "
+          "goroutines (83k events quick; 3 runs x 228k thorough with GOMAXPROCS default/4/2: every concurrent return compared with "
+          "the same call executed alone; randomized results inverted alone), and recorded registry histories (150 / 3 x 3000 "
+          "scenarios of barrier-separated windows of <= 6 concurrent calls, incl. same-instant registration storms) for which TLC "
+          "searches linearization points (high-water mark acceptance, StateDeque, -workers 1)."),
     note=("Schedules are sampled by the Go scheduler, not enumerated (primitives contain no synchronisation points a hook could "
           "gate). The NO-DATA-RACE clause is decided by the Go race detector attached to the same conformance runs (every run "
           "uses the -race build; a report becomes a `race` event that the trace spec rejects), NOT by TLC. Internal registries are "
